@@ -67,7 +67,7 @@ def split_dry_run(stdout):
         if text.startswith('\n'):
             text = text[1:]
         res[name] = text
-        order.append(name)
+        order.append((name, text))
     return res, order
 
 
